@@ -594,6 +594,9 @@ func c09Aux(args []string) int {
 		c09LibDump()
 		return 0
 	}
+	if args[0] == "firstuse" {
+		return c09FirstUseAux(args[1:])
+	}
 	n, _ := strconv.Atoi(args[0])
 	nlib := 0
 	if len(args) > 1 {
@@ -633,6 +636,7 @@ func c09Aux(args []string) int {
 }
 
 func c09Driver(d *fw.D) {
+	c09FirstUsePhase(d)
 	n := pick(d.Tier, 400, 8000)
 	nlib := pick(d.Tier, 16, c09LibCasesPerPass())
 	out, err := d.RunAux("elpscheck", nil, 30*time.Minute, strconv.Itoa(n), strconv.Itoa(nlib))
